@@ -343,10 +343,10 @@ not have any effect."""
         """
         data = [(1,l) for l in clause] + ['>=', 1]
 
-        self._constraints.append(data)
-
         if check:
             self._check_and_update(data)
+
+        self._constraints.append(data)
 
     def add_clauses_from(self, clauses, check=True):
         """Add a sequence of clauses to the CNF
@@ -393,10 +393,11 @@ not have any effect."""
             clause. (default: True)
         """
         constraint = normalize_opb(constraint)
-        self._constraints.append(constraint)
 
         if check:
             self._check_and_update(constraint)
+
+        self._constraints.append(constraint)
 
     def add_constraints_from(self, constraints, check=True):
         """Add a sequence of constraints to the formula
